@@ -19,6 +19,9 @@ import (
 	"regexp"
 	"regexp/syntax"
 	"runtime"
+	"strings"
+
+	"github.com/coregx/coregex"
 
 	"github.com/coregx/coregex/dfa/lazy"
 	"github.com/coregx/coregex/literal"
@@ -38,7 +41,7 @@ type directSearcher interface {
 func runRevSuffix(args []string) {
 	fs := flag.NewFlagSet("revsuffix", flag.ExitOnError)
 	in := fs.String("in", "", "TLC output (MC_ReverseSuffix)")
-	_ = fs.String("props", "C19", "")
+	props := fs.String("props", "C19", "C19: engine vs reference at every offset + model conformance; C01 / C02 / C04: the public API on the same records")
 	report := fs.String("report", "report.json", "")
 	fails := fs.String("fail", "fail.ndjson", "")
 	fs.Parse(args)
@@ -140,6 +143,17 @@ func runRevSuffix(args []string) {
 			}
 		}
 		rep.API(tag+":strategy="+strat, 1)
+		want := map[string]bool{}
+		for _, p := range strings.Split(*props, ",") {
+			want[p] = true
+		}
+		var pub *coregex.Regex
+		if want["C01"] || want["C02"] || want["C04"] {
+			pub, _ = coregex.Compile(pat)
+		}
+		if !want["C19"] {
+			direct = nil
+		}
 		calls, cases, nontriv := 0, 0, 0
 		var hx string
 		guard := func(api string, fn func()) {
@@ -183,7 +197,61 @@ func runRevSuffix(args []string) {
 				nontriv++
 			}
 			// the verdict: the engine, when the selector itself picked this searcher
-			if strat == wantStrat {
+			// the public API on the same records (every strategy): Match, FindIndex, FindAllIndex = the chain of per-offset matches
+			// (no match of these families is empty, so regexp.allMatches is: next search starts where the last match ended)
+			if pub != nil {
+				pf := func(prop, api, w, g string) {
+					rep.Fail(&core.Failure{Prop: prop, API: api, Mode: "first", Pattern: pat, Hay: hx, Want: w, Got: g, Strat: strat, Fam: rec.Fam})
+				}
+				if want["C01"] {
+					guard("Match", func() {
+						if got := pub.Match(b); got != (len(h.AtF[0]) > 0) {
+							pf("C01", "Match", fmt.Sprint(len(h.AtF[0]) > 0), fmt.Sprint(got))
+						}
+					})
+				}
+				if want["C02"] {
+					guard("FindIndex", func() {
+						got := pub.FindIndex(b)
+						if got == nil {
+							got = []int{}
+						}
+						if !eqInts(got, h.AtF[0]) {
+							pf("C02", "FindIndex", fmt.Sprint(h.AtF[0]), fmt.Sprint(got))
+						}
+					})
+				}
+				if want["C04"] {
+					var chain [][]int
+					for p := 0; p < len(h.AtF) && len(h.AtF[p]) == 2; {
+						m := h.AtF[p]
+						chain = append(chain, m)
+						np := p
+						for np < len(offs) && offs[np] < m[1] {
+							np++
+						}
+						if np <= p || np >= len(h.AtF) {
+							break
+						}
+						p = np
+					}
+					if stdAll := std.FindAllIndex(b, -1); !eqAll(stdAll, chain) {
+						rep.Gap(fmt.Sprintf("FindAll chain of %s on %x", pat, b))
+					} else {
+						guard("FindAllIndex", func() {
+							if got := pub.FindAllIndex(b, -1); !eqAll(got, chain) {
+								pf("C04", "FindAllIndex", fmt.Sprint(chain), fmt.Sprint(got))
+							}
+						})
+						guard("Count", func() {
+							if got := pub.Count(b, -1); got != len(chain) {
+								pf("C04", "Count", fmt.Sprint(len(chain)), fmt.Sprint(got))
+							}
+						})
+					}
+				}
+			}
+			if strat == wantStrat && want["C19"] {
 				for p := range h.AtF {
 					at := offs[p]
 					guard("Engine.FindIndicesAt", func() {
